@@ -33,7 +33,8 @@ Catalogue == <<
   [mes |-> <<[name |-> "m1", eps |-> <<>>]>>, def |-> "m1"],                                              \* empty list (existing or new name)
   [mes |-> <<[name |-> "m1", eps |-> <<"b">>], [name |-> "m3", eps |-> <<>>]>>, def |-> "m1"],            \* one good entry, one empty
   [mes |-> <<[name |-> "m1", eps |-> <<"b", "c", "a">>], [name |-> "m2", eps |-> <<"a">>]>>, def |-> "m1"],
-  [mes |-> <<[name |-> "m1", eps |-> <<"a", "b", "c">>]>>, def |-> "m1"]                                  \* 10: option set 1 is this list without its tail
+  [mes |-> <<[name |-> "m1", eps |-> <<"a", "b", "c">>]>>, def |-> "m1"],                                 \* 10: option set 1 is this list without its tail
+  [mes |-> <<[name |-> "m1", eps |-> <<"a">>], [name |-> "", eps |-> <<"b">>]>>, def |-> "m1"]             \* 11: a non-default MultiEndpoint whose name is the empty string
 >>
 
 Init ==
@@ -115,7 +116,7 @@ Flip(e, toUp) ==
 Rpc(n) ==
   /\ alive /\ ~closed
   /\ Cardinality({i \in DOMAIN hist : hist[i].op = "rpc"}) < MaxRpc
-  /\ LET target == IF n \in Names(mes) THEN n ELSE def
+  /\ LET target == IF n # "" /\ n \in Names(mes) THEN n ELSE def
          S == {i \in DOMAIN cur : cur[i].name = target}
          e == cur[CHOOSE i \in S : TRUE].e
      IN Commit([BaseEv("rpc") EXCEPT !.name = n, !.res = IF e \in up THEN "OK" ELSE "ERR", !.srv = IF e \in up THEN e ELSE "",
